@@ -112,6 +112,8 @@ pub struct Cfg {
     pub pool_max: usize,
     /// `focus` restricts the per-child operations for *all* children, not only the prefilled ones
     pub focus_strict: bool,
+    /// from_iter-style constructors get an iterator whose size hint is inexact (lower bound 0)
+    pub inexact_iter: bool,
 }
 
 impl Cfg {
@@ -139,6 +141,7 @@ impl Cfg {
             pre_polls: 0,
             pool_max: 2,
             focus_strict: false,
+            inexact_iter: false,
         }
     }
     pub fn limit(&self) -> usize {
@@ -1521,6 +1524,8 @@ pub(crate) fn begin<'a>(cfg: &'a Cfg, prefix: &[u8], log_on: bool) -> Run<'a> {
         w.up.hint = cfg.hint;
         w.up.is_try = cfg.kind.is_try();
         w.up.modes = cfg.up_modes;
+        w.up.limit = if cfg.kind.is_adapter() && !matches!(cfg.kind, Kind::Fec(_)) && cfg.limit() != usize::MAX { cfg.limit() } else { 0 };
+        w.up.ordered = matches!(cfg.kind, Kind::Bo(_) | Kind::Tbo(_));
         w.dormant = cfg.dormant;
     });
     Run {
@@ -1557,7 +1562,7 @@ impl<'a> Run<'a> {
             cfg.kind,
             Kind::FubIter(_) | Kind::FuIter(_) | Kind::FobIter(_) | Kind::FoIter(_) | Kind::Mb(_) | Kind::Mu(_) | Kind::MuIter(_) | Kind::Ja(_) | Kind::Tja(_) | Kind::JaP(_) | Kind::TjaP(_) | Kind::JaN(_) | Kind::TjaN(_) | Kind::JaZ(_)
         );
-        let subj = build(cfg.kind, if by_ctor { &pre } else { &[] });
+        let subj = build(cfg.kind, if by_ctor { &pre } else { &[] }, cfg.inexact_iter);
         match subj {
             None => {
                 w(|w| w.violate("C15", "constructor-panicked", format!("constructing {:?} panicked", cfg.kind)));
